@@ -250,6 +250,9 @@ pub struct Explored {
     pub serial_outcomes: BTreeSet<String>,
     pub deadlock_signatures: BTreeMap<String, Vec<usize>>,
     pub nonserial_outcomes: BTreeMap<String, Vec<usize>>,
+    /// runs in which a call gave up with the lock error but the outcome is not that of the other calls alone
+    pub locked_with_effect: usize,
+    pub lockfx_outcomes: BTreeMap<String, Vec<usize>>,
     pub timed_out: usize,
 }
 
@@ -321,6 +324,10 @@ fn record(ex: &mut Explored, shape: &'static str, ops: &[Op], out: &RunOut, fail
     } else {
         false
     };
+    if !ok && !failed.is_empty() {
+        ex.locked_with_effect += 1;
+        ex.lockfx_outcomes.entry(key.clone()).or_insert_with(|| out.outcome.schedule.clone());
+    }
     if !ok {
         ex.nonserial += 1;
         ex.nonserial_outcomes.entry(key.clone()).or_insert_with(|| out.outcome.schedule.clone());
@@ -415,7 +422,7 @@ pub fn explore_random(shape: &'static str, ops: &[Op], n: usize, seed: u64, ex: 
 
 fn print_summary(tag: &str, shape: &str, names: &[String], ex: &Explored) {
     println!(
-        "SUMMARY {} shape={} ops={} runs={} deadlocks={} nonserial={} distinct_outcomes={} serial_outcomes={} timed_out={}",
+        "SUMMARY {} shape={} ops={} runs={} deadlocks={} nonserial={} distinct_outcomes={} serial_outcomes={} timed_out={} lockfx={}",
         tag,
         shape,
         names.join("+"),
@@ -424,8 +431,12 @@ fn print_summary(tag: &str, shape: &str, names: &[String], ex: &Explored) {
         ex.nonserial,
         ex.distinct_outcomes.len(),
         ex.serial_outcomes.len(),
-        ex.timed_out
+        ex.timed_out,
+        ex.locked_with_effect
     );
+    for (key, sched) in &ex.lockfx_outcomes {
+        println!("LOCKFX shape={} ops={} schedule={} outcome={}", shape, names.join("+"), sched_str(sched), key);
+    }
     for (sig, sched) in &ex.deadlock_signatures {
         println!("DLSIG shape={} ops={} schedule={} sig={}", shape, names.join("+"), sched_str(sched), sig);
     }
